@@ -18,10 +18,14 @@ def scratch():
         shutil.copy('/repo/libTMCG_config.h', d)
         return d
     os.makedirs(os.path.join(d, 'src'))
-    for f in os.listdir(os.path.join(REPO, 'src')):
-        if f.endswith(('.cc', '.hh', '.h', '.am')):
-            shutil.copy(os.path.join(REPO, 'src', f), os.path.join(d, 'src', f))
-    shutil.copy(os.path.join(REPO, 'libTMCG_config.h'), d)
+    # tooling only: a seed confirmation may have /repo patched for a moment (tools/confirm_seed.py holds this lock meanwhile)
+    import fcntl
+    with open('/tmp/confirm-seed.lock', 'w') as lk:
+        fcntl.flock(lk, fcntl.LOCK_EX)
+        for f in os.listdir(os.path.join(REPO, 'src')):
+            if f.endswith(('.cc', '.hh', '.h', '.am')):
+                shutil.copy(os.path.join(REPO, 'src', f), os.path.join(d, 'src', f))
+        shutil.copy(os.path.join(REPO, 'libTMCG_config.h'), d)
     return d
 
 
